@@ -658,6 +658,38 @@ def F36():
         r = "%s" % type(e).__name__
     return r is not True, "verify_input of a key path spend with annex -> %s" % r
 
+def F37():
+    """p2sh 2-of-3 output spent by an outsider: scriptSig `OP_0 <hash160(outsider key)> <redeem script>`, witness `<outsider sig> <outsider key>`"""
+    from buidl.ecc import PrivateKey
+    from buidl.helper import hash160
+    from buidl.script import Script, RedeemScript, P2SHScriptPubKey, P2WPKHScriptPubKey
+    from buidl.tx import Tx, TxIn, TxOut
+    from buidl.witness import Witness
+    import contextlib, io
+    keys = [PrivateKey(1000 + i) for i in range(3)]
+    redeem = RedeemScript([0x52] + [k.point.sec() for k in keys] + [0x53, 0xAE])
+    spk = P2SHScriptPubKey(hash160(redeem.raw_serialize()))
+    outsider = PrivateKey(424242)
+    tx_in = TxIn(bytes.fromhex("22" * 32), 0)
+    tx_in._value, tx_in._script_pubkey = 100000, spk
+    tx = Tx(2, [tx_in], [TxOut(90000, P2WPKHScriptPubKey(outsider.point.hash160()))], 0, network="testnet", segwit=True)
+    tx_in.script_sig = Script([b"", outsider.point.hash160(), redeem.raw_serialize()])
+    results = []
+    for digest in ("bip143", "legacy"):
+        try:
+            if digest == "bip143":
+                tx_in.witness = Witness([b"x", outsider.point.sec()]); z = tx.sig_hash(0, 1)
+            else:
+                z = tx.sig_hash_legacy(0, 1, redeem_script=redeem)
+            sig = outsider.sign(z).der() + b"\x01"
+            tx_in.witness = Witness([sig, outsider.point.sec()])
+            with contextlib.redirect_stdout(io.StringIO()):
+                r = tx.verify_input(0)
+        except Exception as e:
+            r = type(e).__name__
+        results.append(r)
+    return any(r is True for r in results), "verify_input of a 2-of-3 p2sh output spent with no key of the script -> %s" % results
+
 def K1():
     from buidl.op import op_2rot
     st = [b"1", b"2", b"3", b"4", b"5", b"6"]
